@@ -383,3 +383,71 @@ pub fn c09_native<G: AffineRepr + 'static>(shape: &crate::r1cs::Shape, seed: u64
     out.push(("all nonces are pairwise distinct".into(), sorted.len() == all.len()));
     out
 }
+
+/// Differential run against the pinned reference protocol (C03 replay, C18): both provers against
+/// both verifiers, plus adversarial reference provers, plus the generator derivation.
+pub fn diff_native<G: AffineRepr + 'static>(shape: &crate::r1cs::Shape, seed: u64) -> Checks {
+    use crate::r1cs::*;
+    use crate::refimpl::*;
+    let mut out: Checks = vec![];
+    let pad = shape.padded();
+    let (n1, n2) = shape.gates();
+    let pc = PedersenGens::<G>::default();
+    let bp = BulletproofGens::<G>::new(pad, 1);
+    let (Gs, Hs) = (bp.share(0).verif_G(pad), bp.share(0).verif_H(pad));
+    let (B, Bb) = (pc.B, pc.B_blinding);
+    let fresh = |s: u64| new_shared::<G>(shape, &Default::default(), Box::new(PlainVals::<G::ScalarField>::new(HashMap::new(), s)));
+    // implementation's proof
+    let shr = fresh(seed);
+    let (proof, _) = prove_shape(shape, &shr, &pc, &bp, seed);
+    match proof {
+        Ok(p) => {
+            rewind_for_verifier(&shr);
+            let mut vt = new_verifier_transcript(shape);
+            out.push(("implementation's proof accepted by the implementation".into(), build_verifier(shape, &shr, &mut vt).verify(&p, &pc, &bp).is_ok()));
+            rewind_for_verifier(&shr);
+            out.push(("implementation's proof accepted by the reference verifier (unbatched relations, explicit folding, pinned transcript schedule)".into(), ref_verify(shape, &shr, B, Bb, &Gs, &Hs, &p)));
+        }
+        Err(_) => out.push(("implementation proves".into(), false)),
+    }
+    let mut knobs = vec![Knob::Honest];
+    if n2 == 0 {
+        knobs.push(Knob::GarbagePhase2);
+        knobs.push(Knob::BlindedPhase2);
+    }
+    if n1 + n2 <= 1 {
+        knobs.push(Knob::SurplusRound);
+    }
+    for knob in knobs {
+        let shr = fresh(seed + 17);
+        match ref_prove(shape, &shr, B, Bb, &Gs, &Hs, seed, knob.clone()) {
+            Some(p) => {
+                rewind_for_verifier(&shr);
+                let rv = ref_verify(shape, &shr, B, Bb, &Gs, &Hs, &p);
+                rewind_for_verifier(&shr);
+                let mut vt = new_verifier_transcript(shape);
+                let iv = build_verifier(shape, &shr, &mut vt).verify(&p, &pc, &bp).is_ok();
+                let expect = matches!(knob, Knob::Honest | Knob::BlindedPhase2);
+                out.push((format!("reference prover ({:?}): reference verifier says {} (expected {})", knob, rv, expect), rv == expect));
+                out.push((format!("reference prover ({:?}): implementation's verdict {} equals the reference verdict {}", knob, iv, rv), iv == rv));
+            }
+            None => {
+                if knob == Knob::Honest {
+                    out.push(("reference prover ran".into(), false));
+                }
+            }
+        }
+    }
+    // generators of the reference revision
+    let parties = 3usize;
+    let cap = pad.max(2);
+    let gens = BulletproofGens::<G>::new(cap, parties);
+    let mut gens_ok = true;
+    for j in 0..parties {
+        let (rg, rh, rb, rbb) = ref_generators::<G>(j as u32, cap);
+        gens_ok &= gens.share(j).verif_G(cap) == rg && gens.share(j).verif_H(cap) == rh;
+        gens_ok &= rb == pc.B && rbb == pc.B_blinding;
+    }
+    out.push(("generators and Pedersen bases equal the pinned derivation (labels 'G'/'H' || LE32(party), SHA3-512 -> ChaCha20 -> rand point) for parties 0..2".into(), gens_ok));
+    out
+}
